@@ -18,3 +18,13 @@ pub fn apply(l: &Z, r: RhsRef<'_>, op: BinOp, form: Form) -> Z {
         })),
     }
 }
+
+/// `&a op &a` with BOTH operands being the very same object (aliased references).
+pub fn apply_self(l: &Z, op: BinOp) -> Z {
+    z_match!(l, a => match op {
+        BinOp::Add => (a + a).wrap(),
+        BinOp::Sub => (a - a).wrap(),
+        BinOp::Mul => (a * a).wrap(),
+        _ => unreachable!("wrong table"),
+    })
+}
